@@ -147,6 +147,44 @@ func init() {
 	w[accountT] = reflect.TypeOf(shAccount{})
 	refOpts.Extra[receiptT] = statusRule
 	refOpts.Extra[rfsT] = statusRule
+	// real value -> shadow (public accessors only), so that the reference can say
+	// which item a decoded consensus value denotes
+	addr := func(v reflect.Value) reflect.Value {
+		if v.CanAddr() {
+			return v.Addr()
+		}
+		p := reflect.New(v.Type())
+		p.Elem().Set(v)
+		return p
+	}
+	cv := refOpts.Conv
+	cv[headerT] = func(v reflect.Value) (reflect.Value, error) {
+		return reflect.ValueOf(shadowHeader(addr(v).Interface().(*types.Header))), nil
+	}
+	cv[txT] = func(v reflect.Value) (reflect.Value, error) {
+		return reflect.ValueOf(shadowTx(addr(v).Interface().(*types.Transaction))), nil
+	}
+	cv[blockT] = func(v reflect.Value) (reflect.Value, error) {
+		blk := addr(v).Interface().(*types.Block)
+		bb := shadowBody(blk.Transactions(), blk.Uncles())
+		return reflect.ValueOf(&shBlock{Header: shadowHeader(blk.Header()), Txs: bb.Txs, Uncles: bb.Uncles}), nil
+	}
+	cv[bodyT] = func(v reflect.Value) (reflect.Value, error) {
+		b := addr(v).Interface().(*types.Body)
+		return reflect.ValueOf(shadowBody(b.Transactions, b.Uncles)), nil
+	}
+	cv[receiptT] = func(v reflect.Value) (reflect.Value, error) {
+		return reflect.ValueOf(shadowReceipt(addr(v).Interface().(*types.Receipt))), nil
+	}
+	cv[rfsT] = func(v reflect.Value) (reflect.Value, error) {
+		return reflect.ValueOf(shadowStorageReceipt(addr(v).Interface().(*types.ReceiptForStorage))), nil
+	}
+	cv[logT] = func(v reflect.Value) (reflect.Value, error) {
+		return reflect.ValueOf(shadowLog(addr(v).Interface().(*types.Log))), nil
+	}
+	cv[lfsT] = func(v reflect.Value) (reflect.Value, error) {
+		return reflect.ValueOf(shadowStorageLog((*types.Log)(addr(v).Interface().(*types.LogForStorage)))), nil
+	}
 }
 
 // ---------------------------------------------------------------------------
@@ -433,8 +471,8 @@ func shadowBody(txs []*types.Transaction, uncles []*types.Header) *shBody {
 type consensusCase struct {
 	kind   string
 	shadow interface{}
-	real   interface{}            // pointer passed to EncodeToBytes
-	fresh  func() interface{}     // new decoding target
+	real   interface{}                   // pointer passed to EncodeToBytes
+	fresh  func() interface{}            // new decoding target
 	back   func(interface{}) interface{} // decoded real -> shadow
 }
 
